@@ -799,7 +799,7 @@ struct real
   static void run_case(Ints const &ints, char const *chname) { run_decoded(decode(ints), chname); }
   // warmups: the SAME parser objects first parse `warm_input` that many times (results ignored):
   // parsers are immutable values, an earlier parse must not influence a later one
-  static void run_decoded(peg_case const &pc, char const *chname, int warmups = 0, std::string const &warm_input = std::string())
+  static void run_decoded(peg_case const &pc, char const *chname, int warmups = 0, std::string const &warm_input = std::string(), bool extended = false)
   {
     std::string real_out;
     {
@@ -840,8 +840,20 @@ struct real
     if (real_out != model_out)
     {
       std::string const kind = (real_out.substr(0, 2) == "OK") != (model_out.substr(0, 2) == "OK") ? "accept-vs-reject" : (real_out.substr(0, 2) == "OK" ? "value" : "fatal-flag");
-      fail(std::string("parse|peg-semantics|") + kind, std::string("fcppt: ") + real_out + "  documented semantics: " + model_out);
+      fail(std::string("parse|peg-semantics|") + kind + (extended ? "|input-extended-behind-an-accepted-parse" : ""),
+           (extended ? "on the extended input \"" + pc.input + "\": " : std::string()) + "fcppt: " + real_out + "  documented semantics: " + model_out);
     }
+    // "the string entry points succeed if and only if the whole input was consumed": behind every
+    // accepted input, more input is appended - a newline, a newline and a letter, a blank - and the
+    // case is judged again against the model (which accepts it only if the grammar or the skipper
+    // really consumes the addition)
+    if (!extended && mok && warmups == 0 && pc.input.size() < 64)
+      for (char const *extra : {"\n", "\nb", " ", "\t\n"})
+      {
+        peg_case more = pc;
+        more.input += extra;
+        run_decoded(more, chname, 0, std::string(), true);
+      }
     (void)chname;
   }
 };
